@@ -387,6 +387,162 @@ def rtc_default_dtype(case_names, tier):
     return rec.obligations()
 
 
+# ------------------------------------------------------------------------------------------------------
+# multi-step histories over two operators that share a base: K and a "K + diagonal" wrapper built on it
+
+HIST_BASES = ["dense_psd", "toeplitz", "user_psd", "root_sq", "chol_lower", "kron2", "constmul", "sum", "psdsum", "mul", "blockdiag",
+              "batchrepeat", "dense_expand", "kernel_plus_jitter"]
+HIST_WRAPPERS = ["add_jitter", "add_diagonal_scalar", "addeddiag_constdiag", "add_diagonal_vec"]
+HIST_FIRST = ["svd", "eigh", "diagonalization", "root_decomposition", "root_decomposition[svd]", "root_decomposition[symeig]", "cholesky"]
+HIST_THEN = ["svd", "torch.linalg.svd", "eigh", "eigvalsh", "diagonalization", "root_decomposition", "root_decomposition[svd]",
+             "root_decomposition[symeig]", "root_inv_decomposition", "cholesky"]
+
+
+def _hist_factorize(H, tools, name, op, Dm, dt, kap):
+    """run one factorization of `op` and evaluate the C06 contract against the dense oracle Dm (float64) of *that* operator.
+    Returns (ok, detail).  Default settings and sizes <= max_cholesky_size: every method here is a direct one."""
+    torch = H.torch
+    f64 = torch.float64
+    dn, fro, rel, orth_err, range_basis, min_rel_gap = tools
+    N = Dm.shape[-1]
+    batch = tuple(Dm.shape[:-2])
+    e = H.eps_of(dt)
+    tau = e * (400.0 + 40.0 * N)
+    if name in ("svd", "torch.linalg.svd"):
+        U, Sg, V = op.svd() if name == "svd" else torch.linalg.svd(op)
+        U, V = dn(U).to(f64), dn(V).to(f64)
+        if name == "torch.linalg.svd":
+            V = V.mT
+        if tuple(U.shape) != tuple(Dm.shape) or tuple(V.shape) != tuple(Dm.shape) or tuple(Sg.shape) != (*batch, N):
+            return False, f"shapes U {tuple(U.shape)} S {tuple(Sg.shape)} V {tuple(V.shape)}"
+        S64 = Sg.to(f64)
+        err, ou, ov = rel((U * S64.unsqueeze(-2)) @ V.mT, Dm), orth_err(U), orth_err(V)
+        return (err <= tau and ou <= tau and ov <= tau and bool((S64 >= 0).all()),
+                f"U diag(S) V^T differs from the operator's matrix by {err:.2e} (allowed {tau:.1e}); orthonormality {ou:.1e}/{ov:.1e}; min S {float(S64.min()):.2e}")
+    if name in ("eigh", "diagonalization"):
+        w, Q = op.eigh() if name == "eigh" else op.diagonalization()
+        Q = dn(Q).to(f64)
+        w = w.to(f64)
+        if tuple(Q.shape) != tuple(Dm.shape) or tuple(w.shape) != (*batch, N):
+            return False, f"shapes evals {tuple(w.shape)} evecs {tuple(Q.shape)}"
+        err, oe = rel((Q * w.unsqueeze(-2)) @ Q.mT, Dm), orth_err(Q)
+        return err <= tau and oe <= tau, f"Q diag(w) Q^T differs from the operator's matrix by {err:.2e} (allowed {tau:.1e}); Q^T Q - I {oe:.1e}"
+    if name == "eigvalsh":
+        w = op.eigvalsh()
+        if tuple(w.shape) != (*batch, N):
+            return False, f"eigvalsh shape {tuple(w.shape)}"
+        evd = torch.linalg.eigvalsh(Dm)
+        err = float(((w.to(f64).sort(-1)[0] - evd).abs().max(-1)[0] / evd[..., -1]).max())
+        return err <= tau, f"eigenvalues (as a multiset) differ from the dense ones by {err:.2e} (allowed {tau:.1e})"
+    if name.startswith("root_decomposition"):
+        m = name[len("root_decomposition["):-1] if "[" in name else None
+        R = dn(op.root_decomposition(method=m).root).to(f64)
+        if R.shape[-2] != N or tuple(R.shape[:-2]) != batch:
+            return False, f"root shape {tuple(R.shape)}"
+        err = rel(R @ R.mT, Dm)
+        return err <= tau, f"R R^T differs from the operator's matrix by {err:.2e} (allowed {tau:.1e})"
+    if name == "root_inv_decomposition":
+        R = dn(op.root_inv_decomposition().root).to(f64)
+        if R.shape[-2] != N or tuple(R.shape[:-2]) != batch:
+            return False, f"inverse root shape {tuple(R.shape)}"
+        tol = (e * (400.0 + 40.0 * N + 40.0 * kap)) / max(1.0, kap) + tau
+        err = float(torch.linalg.matrix_norm(Dm @ (R @ R.mT) - torch.eye(N, dtype=f64)).max()) / max(1.0, kap)
+        return err <= tol, f"||A R R^T - I||/kappa = {err:.2e} (allowed {tol:.1e})"
+    if name == "cholesky":
+        Lc = dn(op.cholesky()).to(f64)
+        if tuple(Lc.shape) != tuple(Dm.shape):
+            return False, f"factor shape {tuple(Lc.shape)}"
+        err = rel(Lc @ Lc.mT, Dm)
+        return err <= tau and bool((Lc.triu(1) == 0).all()), f"L L^T differs from the operator's matrix by {err:.2e} (allowed {tau:.1e})"
+    raise ValueError(name)
+
+
+def rtc_wrapper_history(case_names, tier):
+    """Two operators sharing one base: K and A = K + (constant) diagonal built on K (add_jitter / add_diagonal(scalar) /
+    AddedDiagLinearOperator(K, ConstantDiagLinearOperator) / add_diagonal(vector)).  Factorize one of them, then factorize the
+    other one with every method, then the first one again: every returned factorization must factorize the operator it was
+    asked of (A's wrappers reuse - and K memoizes - K's factors, so each must stay a factorization of its own operator)."""
+    from contracts.rtc_common import Recorder
+    from contracts import rtc_C04
+    H = rtc_C04.helpers()
+    torch, zoo, O = H.torch, H.zoo, H.O
+    f64 = torch.float64
+    tools = _tools(H)
+    rec = Recorder(PID)
+    quick = tier == "quick"
+
+    def root_sq(g, dt, batch, n):
+        r = zoo.rn(g, *batch, n, n, dtype=dt) + 0.5 * torch.eye(n, dtype=dt)
+        return O.RootLinearOperator(r), r @ r.mT
+
+    cases = dict(H.CASES)
+    cases["root_sq"] = zoo.Case("root_sq", "RootLinearOperator", root_sq, psd=True)
+    if quick:
+        cb = [(f64, (), 4), (f64, (2,), 3), (torch.float32, (2, 3), 2), (f64, (1,), 5), (torch.float32, (), 6)]
+    else:
+        cb = H.combos("quick", sizes=[1, 2, 3, 6])
+
+    def wrap(kind, K, D, seed):
+        """(A, dense of A) built on the operator object K itself"""
+        N, batch, dt = D.shape[-1], tuple(D.shape[:-2]), D.dtype
+        I = torch.eye(N, dtype=dt)
+        if kind == "add_jitter":
+            return K.add_jitter(0.75), D + 0.75 * I
+        if kind == "add_diagonal_scalar":
+            return K.add_diagonal(torch.tensor([1.5], dtype=dt)), D + 1.5 * I
+        g = zoo.gen(seed)
+        if kind == "addeddiag_constdiag":
+            v = zoo.rn(g, *batch, 1, dtype=dt).abs() + 0.3
+            return O.AddedDiagLinearOperator(K, O.ConstantDiagLinearOperator(v, diag_shape=N)), D + v.unsqueeze(-1) * I
+        if kind == "add_diagonal_vec":
+            d = zoo.rn(g, *batch, N, dtype=dt).abs() + 0.3
+            return K.add_diagonal(d), D + torch.diag_embed(d)
+        raise ValueError(kind)
+
+    firsts = HIST_FIRST
+    for k, (label, c, dt, batch, n, make, D, kap) in enumerate(rtc_C04._instances(H, rec, tier, case_names, cases=cases, combos_=cb)):
+        N = D.shape[-1]
+        Dm = D.to(f64)
+        for wi, wk in enumerate(HIST_WRAPPERS):
+            for fi, f1 in enumerate(firsts):
+                for order in ("wrapper_first", "base_first"):
+                    if quick and (k + wi + fi + (order == "base_first")) % 2:
+                        continue  # quick: a checkerboard half of (instance, wrapper, first step, order)
+                    lab0 = f"{label}|wrap={wk}|order={order}|first={f1}"
+                    K, _ = make()
+                    try:
+                        A, DA = wrap(wk, K, D, 11 + k)
+                    except Exception as ex:  # noqa
+                        rec.check(f"wrapper_history_construct/{c.name}", lab0, False, f"building the wrapper raised {type(ex).__name__}: {ex}"[:300])
+                        continue
+                    DAm = DA.to(f64)
+                    kapA = H.kappa(DAm)
+                    ops = {"A": (A, DAm, kapA), "K": (K, Dm, kap)}
+                    t1, t2 = ("A", "K") if order == "wrapper_first" else ("K", "A")
+                    steps = [(t1, f1)] + [(t2, f2) for f2 in HIST_THEN] + [(t1, f1), (t1, "svd"), (t1, "eigh")]
+                    torch.manual_seed(77)
+                    for si, (tgt, fn) in enumerate(steps):
+                        op_, Dd, kp = ops[tgt]
+                        lab = f"{lab0}|step={si}|target={tgt}|then={fn}"
+                        grp = f"wrapper_history[{fn}]/{c.name}"
+                        try:
+                            ok, detail = _hist_factorize(H, tools, fn, op_, Dd, dt, kp)
+                        except Exception as ex:  # noqa
+                            import traceback
+                            tb = traceback.format_exc().strip().splitlines()
+                            ok, detail = False, f"raised {type(ex).__name__}: {ex}"[:300] + " @ " + (tb[-3].strip() if len(tb) >= 3 else "")
+                        rec.check(grp, lab, ok, f"{'K + diagonal' if tgt == 'A' else 'K'} after {si} earlier factorization(s) on the pair: {detail}")
+                    # neither operator's matrix may have changed
+                    for tgt in ("K", "A"):
+                        op_, Dd, _kp = ops[tgt]
+                        try:
+                            same = tools[2](op_.to_dense().to(f64), Dd) <= H.eps_of(dt) * 40
+                        except Exception:  # noqa
+                            same = False
+                        rec.check(f"wrapper_history[to_dense]/{c.name}", f"{lab0}|target={tgt}", same, "to_dense() of the operator changed after factorizations on the pair")
+    return rec.obligations()
+
+
 def _chunks(names, k):
     return [names[i:i + k] for i in range(0, len(names), k)]
 
@@ -399,6 +555,8 @@ def rtc_units(tier):
         us.append(Unit(f"C06/rtc/factorizations[{','.join(ch)}]", mod, "rtc_factorizations", (ch, tier), engine="rtc", timeout_s=1500))
     for ch in _chunks(ALL_NAMES, 35):
         us.append(Unit(f"C06/rtc/default_dtype[{ch[0]}..{ch[-1]}]", mod, "rtc_default_dtype", (ch, tier), engine="rtc", timeout_s=1500))
+    for ch in _chunks(HIST_BASES, 5):
+        us.append(Unit(f"C06/rtc/wrapper_history[{','.join(ch)}]", mod, "rtc_wrapper_history", (ch, tier), engine="rtc", timeout_s=1500))
     return us
 
 
@@ -417,5 +575,8 @@ RTC_META = {
     "families": "28 PSD zoo + 42 local PSD cases x dtypes x batch {(),(2,),(1,),(2,3)} x sizes {1,2,4,6} x 9 settings combinations (max_cholesky_size 0/N-1/N/default, "
                 "fast covar_root_decomposition, max_root_decomposition_size N / max(2,N-2) / default, linalg dtypes) x cholesky(upper T/F) x 7 root methods x 7 inverse-root "
                 "methods x 3 diagonalization methods x eigh/eigvalsh/svd via methods, torch.linalg.* and functional entry points; "
-                "histories (both orientations from one operator, eigh twice, eigvalsh/diagonalization before eigh); default dtype float64 with float32 operators.",
+                "histories (both orientations from one operator, eigh twice, eigvalsh/diagonalization before eigh); default dtype float64 with float32 operators; "
+                "two-operator histories (wrapper_history units): K from 14 base cases and A = K.add_jitter / K.add_diagonal(1-element) / AddedDiag(K, ConstantDiag) / K.add_diagonal(vector) "
+                "built on the same K object; one of {svd, eigh, diagonalization, root_decomposition[None|svd|symeig], cholesky} on A (resp. K), then 10 factorizations of the other operator, "
+                "then the first one again, each against its own dense oracle (quick: a checkerboard half), 5 (dtype, batch, size) combinations, default settings.",
 }
